@@ -356,6 +356,12 @@ func (c *compiler) compileExpList(exps []ast.ExpNode, dstRegs []ir.Register) {
 		c.TakeRegister(dst)
 		dstRegs[i] = dst
 	}
+	if len(exps) > len(dstRegs) {
+		// The extra expressions are evaluated too, their values are discarded.
+		for _, exp := range exps[len(dstRegs):] {
+			c.compileExpInto(exp, c.GetFreeRegister())
+		}
+	}
 	for i := commonCount; i < len(dstRegs); i++ {
 		dst := c.GetFreeRegister()
 		c.TakeRegister(dst)
